@@ -3,7 +3,9 @@
    allow_dtd = false the result is Err DtdDetected or identical to the result with allow_dtd = true;
    an input without the string '<!DOCTYPE' gives identical results; with allow_dtd = false no entity is ever
    declared, and the total length of all text and attribute values (text_len + value_len, DefaultMain.v) of a
-   parsed document is at most the input length.
+   parsed document is at most the input length.  On the fragment of Spec/CstFullS5.v: a document WITH a DOCTYPE gives
+   Err DtdDetected under allow_dtd = false (dtd_refused_full), a document without one parses identically under both values
+   (no_dtd_any_option).
    Statements are pinned here (copied verbatim from the proof files by tools/pin_props.py);
    each is re-proved by `exact` and followed by Print Assumptions. *)
 From Coq Require Import Ascii String.
@@ -12,6 +14,8 @@ Import ListNotations.
 From RX Require Import Generated.
 From RX.Model Require Import Base CharClass Stream Tokenizer Doc Builder Parse Api.
 From RX.Proofs Require Import OptionsParam OptionsBuild OptionsMain OptionsDtd DefaultEntities DefaultTokenizer DefaultContent DefaultText DefaultMain.
+From RX.Proofs Require CstNsView CstFullMain CstFullS5.
+From RX.Spec Require CstFull CstFullS5.
 Open Scope N_scope.
 
 (* ---- Proofs/OptionsMain.v ---- *)
@@ -49,3 +53,29 @@ Theorem C16_content_le_input :
   parse text {| allow_dtd := false; nodes_limit := lim |} = Ok d -> text_len text d + value_len text d <= tlen text.
 Proof. exact content_le_input. Qed.
 Print Assumptions C16_content_le_input.
+
+(* ---- Proofs/CstFullS5.v ---- *)
+Module G4.
+Import RX.Spec.CstFull. Import RX.Spec.CstFullS5. Import RX.Proofs.CstNsView. Import RX.Proofs.CstFullMain. Import RX.Proofs.CstFullS5.
+Theorem C16_dtd_refused_full :
+  forall (d : S5.doc) (opt : options),
+  S5.wf_doc d = true -> S5.has_dtd d = true -> allow_dtd opt = false ->
+  N.of_nat (length (S5.sem d)) < nodes_limit opt ->
+  N.of_nat (length (S5.render d)) <= u32_max ->
+  parse (S5.render d) opt = Err DtdDetected.
+Proof. exact dtd_refused_full. Qed.
+Print Assumptions C16_dtd_refused_full.
+
+Theorem C16_no_dtd_any_option :
+  forall (d : S5.doc) (lim : N),
+  S5.wf_doc d = true -> S5.has_dtd d = false ->
+  N.of_nat (length (S5.sem d)) < lim ->
+  N.of_nat (length (S5.render d)) <= u32_max ->
+  S5.distinct_decls_le d (N.to_nat 65535) ->
+  1 + N.of_nat (S5.ns_cost d) <= u32_max ->
+  parse (S5.render d) (OptionsMain.opts false lim) = parse (S5.render d) (OptionsMain.opts true lim) /\
+  exists doc, parse (S5.render d) (OptionsMain.opts false lim) = Ok doc /\ view (S5.render d) doc = Some (S5.sem d).
+Proof. exact no_dtd_any_option. Qed.
+Print Assumptions C16_no_dtd_any_option.
+
+End G4.
